@@ -292,3 +292,97 @@ Theorem C02_two_trace_unrestricted_refuted :
 Proof. exact two_trace_unrestricted_refuted. Qed.
 Print Assumptions C02_two_trace_unrestricted_refuted.
 
+
+(* ---- the tie to the source by translation (builder, store, executors): coq/gen/GenBuilder.v is regenerated from
+   src/eascheduler/{builder/jobs.py, job_stores/memory.py, job_control/*.py, executor/base.py} on every run
+   (tools/gen_builder.py); these theorems are re-checked against it (coq/theories/GenBuilderEq.v).  The generated
+   `_add_job` calls the GENERATED link_scheduler / job_finish (GenJobs.v), which call the GENERATED scheduler. ---- *)
+From EAS Require GenRt GenRtJobs GenJobsEq GenRtBuilder SchedEqst GenBuilderEq.
+Theorem C02_generated_builder_recognised :
+  EASGen.GenBuilder.gen_builder_status_v = EASGen.GenBuilder.GenBuilderOk.
+Proof. exact GenBuilderEq.gen_builder_recognised. Qed.
+Print Assumptions C02_generated_builder_recognised.
+(* JobBuilder._add_job: the store first (a refusal ends it before the job has seen the scheduler), then
+   link_scheduler in the state the store left, on an exception job_finish and the exception re-raised *)
+Theorem C02_generated_add_job_order : forall E fuel hs j s,
+  GenBuilderEq.gen_add_job E fuel hs j s =
+  match (if hs then EASGen.GenBuilder.g_InMemoryStore_add_job j s else Some (s, GenRtJobs.JRet)) with
+  | None => None
+  | Some (s0, GenRtJobs.JExc e) => Some (s0, GenRtJobs.JExc e)
+  | Some (s0, GenRtJobs.JRet) =>
+      GenBuilderEq.finish_on_error E fuel j (GenJobsEq.gen_link_scheduler E fuel j s0)
+  end.
+Proof. exact GenBuilderEq.gen_add_job_shape. Qed.
+Print Assumptions C02_generated_add_job_order.
+(* ... and it computes Sched.create on every state with the invariant, for every new job object: accepted / refused by
+   the store (KeyError, nothing changes) / refused by link_scheduler (finished again, out of the store, re-raised);
+   same outcome, same state up to how the job table was built (SchedEqst.eqst: all fields, the table pointwise) *)
+Theorem C02_generated_add_job_is_create : forall E fuel hs b s s' r,
+  SchedApi.Inv s -> GenBuilderEq.fresh_job b -> Sched.create E fuel hs b s = (s', r) -> r <> Sched.NoFuel ->
+  GenBuilderEq.create_agrees hs b s s' r
+    (GenBuilderEq.gen_add_job E fuel hs (Sched.njobs s) (GenRtBuilder.alloc_obj b s)).
+Proof. exact GenBuilderEq.gen_add_job_is_create. Qed.
+Print Assumptions C02_generated_add_job_is_create.
+Theorem C02_generated_create_agrees_means : forall hs b s s' r m,
+  GenBuilderEq.create_agrees hs b s s' r m <->
+  if (hs && Sched.store_has (Sched.jkey b) (Sched.store s))%bool
+  then m = Some (GenRtBuilder.alloc_obj b s, GenRtJobs.JExc (GenRtJobs.JErr Base.EKeyError)) /\ s' = s /\
+       r = Sched.Raised Base.EKeyError
+  else exists g, m = GenJobsEq.ret_of r g /\ SchedEqst.eqst g s'.
+Proof. intros. reflexivity. Qed.
+Print Assumptions C02_generated_create_agrees_means.
+(* the three entry points (the argument conversion is a primitive: it yielded the model's value ...) *)
+Theorem C02_generated_countdown_is_model : forall E fuel hs s secs key s' r,
+  SchedApi.Inv s -> 0 < secs -> Sched.step_op E fuel hs s (Sched.OCountdown secs key) = (s', r) -> r <> Sched.NoFuel ->
+  GenBuilderEq.create_agrees hs (Sched.new_job Sched.KCountdown 0 secs key) s s' r
+    (GenBuilderEq.gen_countdown E fuel hs (GenRtBuilder.CVal secs) key s).
+Proof. exact GenBuilderEq.gen_countdown_is_model. Qed.
+Print Assumptions C02_generated_countdown_is_model.
+Theorem C02_generated_once_is_model : forall E fuel hs s t key s' r,
+  SchedApi.Inv s -> Sched.step_op E fuel hs s (Sched.OOnce t key) = (s', r) -> r <> Sched.NoFuel ->
+  GenBuilderEq.create_agrees hs (Sched.new_job Sched.KOnce t 0 key) s s' r
+    (GenBuilderEq.gen_once E fuel hs (GenRtBuilder.CVal t) key s).
+Proof. exact GenBuilderEq.gen_once_is_model. Qed.
+Print Assumptions C02_generated_once_is_model.
+Theorem C02_generated_at_is_model : forall E fuel hs s key s' r,
+  SchedApi.Inv s -> Sched.step_op E fuel hs s (Sched.OAt key) = (s', r) -> r <> Sched.NoFuel ->
+  GenBuilderEq.create_agrees hs (Sched.new_job Sched.KAt 0 0 key) s s' r
+    (GenBuilderEq.gen_at E fuel hs (GenRtBuilder.CVal tt) key s).
+Proof. exact GenBuilderEq.gen_at_is_model. Qed.
+Print Assumptions C02_generated_at_is_model.
+(* ... or it raised: the entry point raises the same exception, no job object, nothing changes *)
+Theorem C02_generated_entry_conv_raises : forall E fuel hs e key s,
+  GenBuilderEq.gen_countdown E fuel hs (GenRtBuilder.CExc e) key s = Some (s, GenRtJobs.JExc (GenRtJobs.JErr e)) /\
+  GenBuilderEq.gen_once E fuel hs (GenRtBuilder.CExc e) key s = Some (s, GenRtJobs.JExc (GenRtJobs.JErr e)) /\
+  GenBuilderEq.gen_at E fuel hs (GenRtBuilder.CExc e) key s = Some (s, GenRtJobs.JExc (GenRtJobs.JErr e)).
+Proof. exact GenBuilderEq.gen_entry_conv_raises. Qed.
+Print Assumptions C02_generated_entry_conv_raises.
+(* the states differ only in how the job table was built; the model's functions and the invariant respect that *)
+Theorem C02_generated_eqst_is_congruence : forall E f, SchedEqst.core_eqst E f.
+Proof. exact SchedEqst.core_eqst_all. Qed.
+Print Assumptions C02_generated_eqst_is_congruence.
+Theorem C02_generated_eqst_inv : forall a b, SchedEqst.eqst a b -> SchedApi.Inv a -> SchedApi.Inv b.
+Proof. exact SchedEqst.Inv_eqst. Qed.
+Print Assumptions C02_generated_eqst_inv.
+(* SyncExecutor.execute is what the job classes' `self.executor.execute()` was taken to be: the callable is entered,
+   an exception goes to process_exception, execute() returns *)
+Theorem C02_generated_sync_execute : forall E j t s,
+  Sched.jnext (Sched.jobs s j) = Some t ->
+  EASGen.GenBuilder.g_SyncExecutor_execute E j s = Some (SchedInv.exec_pre E j t s, GenRtJobs.JRet) /\
+  EASGen.GenBuilder.g_SyncExecutor_execute E j s = Some (GenRtJobs.run_executor E j s, GenRtJobs.JRet).
+Proof.
+  intros E j t s H. split; [exact (GenBuilderEq.gen_sync_execute_is_exec_pre E j t s H)|
+                            exact (GenBuilderEq.gen_sync_execute_is_run_executor E j s)].
+Qed.
+Print Assumptions C02_generated_sync_execute.
+(* AsyncExecutor._execute, one resumption of the wrapper = AsyncExec.wrap_beh; execute() submits the wrapper *)
+Theorem C02_generated_async_execute : forall w b,
+  (fst b, fst (EASGen.GenBuilder.g_AsyncExecutor_execute_step (AsyncExec.user_out w (snd b)))) = AsyncExec.wrap_beh w b /\
+  snd (EASGen.GenBuilder.g_AsyncExecutor_execute_step (AsyncExec.user_out w (snd b))) =
+    AsyncExec.handler_called (AsyncExec.user_out w (snd b)).
+Proof. exact GenBuilderEq.gen_async_is_wrap_beh. Qed.
+Print Assumptions C02_generated_async_execute.
+Theorem C02_generated_async_submits_wrapper :
+  EASGen.GenBuilder.g_AsyncExecutor_execute_submits = GenRtBuilder.CoWrapper.
+Proof. exact GenBuilderEq.gen_async_submits_wrapper. Qed.
+Print Assumptions C02_generated_async_submits_wrapper.
